@@ -81,7 +81,7 @@ func TestWorker(t *testing.T) {
 		if b.Sample == nil && res.Switches > 0 && i > 2 {
 			b.Sample = map[string]any{"seed": c.Seed, "callers": c.Callers, "cleaner": c.Cleaner, "size_limit": c.SizeLimit, "pre_emptions": res.Switches, "trace": res.Trace}
 		}
-		if res.Outcome == "violation" || res.Outcome == "infra" {
+		if res.Outcome == "violation" || res.Outcome == "infra" || (job.Count == 1 && os.Getenv("VERIF_SELFTEST") != "") {
 			cc := *c
 			cc.Schedule = res.Schedule
 			emit("RESULT", map[string]any{"property": "C18", "seed": c.Seed, "outcome": res.Outcome, "violations": res.Violations, "steps": res.Steps,
